@@ -303,8 +303,9 @@ class Verifier:
             leaves(name, v, inputs)
         free = {x.id for x in ast.walk(node.value) if isinstance(x, ast.Name)}
         for nm in free:
-            if nm not in st.env and nm not in consts and nm not in ('np', 'math', 'u', 'True',
-                                                                     'False', 'None'):
+            if nm not in st.env and nm not in consts and nm not in ('np', 'math', 'u', 'True', 'False', 'None', 'float',
+                                                                     'int', 'bool', 'len', 'abs', 'min', 'max',
+                                                                     'slice', 'tuple'):
                 raise Unsupported(f'free variable {nm} of the statement has no type in the '
                                   'contract')
         env0 = dict(st.env)
